@@ -112,6 +112,15 @@ Example C05_context_nonvacuous :
         (bs "sys::prepare", GStr (bs "Prepare")); (bs "sys::rollback", GStr (bs "Rollback"))].
 Proof. vm_compute. reflexivity. Qed.
 
+(* "registration fails" includes every reply that is not an accepted registration: a failure result, a
+   transport error and a malformed reply (nil, another message type, a pointer) - none of them lets try run *)
+Example C05_register_first_malformed_nonvacuous :
+  let a := mkA (bs "debit") (bs "Prepare") (bs "Commit") (bs "Rollback") in
+  map (fun r => (List.length (filter is_try (fst (prepare a true (bs "x") [] r))), snd (prepare a true (bs "x") [] r)))
+      [ROk 5; RFailCode; RError; RMalformed]
+  = [(1%nat, true); (0%nat, false); (0%nat, false); (0%nat, false)].
+Proof. vm_compute. reflexivity. Qed.
+
 Example C05_register_first_seq_nonvacuous :
   let a := mkA (bs "debit") (bs "Prepare") (bs "Commit") (bs "Rollback") in
   let b := mkA (bs "credit") (bs "Try") (bs "Confirm") (bs "Cancel") in
